@@ -1,0 +1,54 @@
+//go:build verif
+
+package event
+
+// Contracts checked by /verif's govc.  Comments only; build tag "verif".
+
+//@ unit event
+//@
+//@ // ===== C16: Close waits for the publishers in flight.  A command is handed to the command channel only
+//@ // while the close lock is held (shared) and after isClosed was read as false under that same hold, so
+//@ // Close - which takes the lock exclusively before it sets the flag and closes the channel - cannot run
+//@ // in between (ghost closeHeld; goroutine interleavings themselves are not modelled).
+//@ ghost closeHeld bool
+//@ extern (*sync.RWMutex).RLock(m)
+//@   requires !closeHeld
+//@   ensures closeHeld
+//@   modifies closeHeld
+//@ extern rundefer (*sync.RWMutex).RUnlock(m)
+//@   requires closeHeld
+//@   ensures !closeHeld
+//@   modifies closeHeld
+//@ extern (*sync.RWMutex).RUnlock(m)
+//@   requires closeHeld
+//@   ensures !closeHeld
+//@   modifies closeHeld
+//@ extern (*sync.RWMutex).Lock(m)
+//@   requires !closeHeld
+//@   ensures closeHeld
+//@   modifies closeHeld
+//@ extern rundefer (*sync.RWMutex).Unlock(m)
+//@   requires closeHeld
+//@   ensures !closeHeld
+//@   modifies closeHeld
+//@ extern (*sync.RWMutex).Unlock(m)
+//@   requires closeHeld
+//@   ensures !closeHeld
+//@   modifies closeHeld
+//@ protocol CloseLocked
+//@   requires !closeHeld
+//@   ensures !closeHeld
+//@   modifies closeHeld
+//@   tags C16 C20
+//@ apply CloseLocked: (*channelBus).Publish, (*channelBus).Subscribe, (*channelBus).Unsubscribe, (*channelBus).Close
+//@ func (*channelBus).Publish
+//@   assert before call#1 chansend: closeHeld && !b.isClosed
+//@ // the subscription counter is an atomic of its own; bumping it touches nothing the lock protects
+//@ extern (*atomic.Uint64).Add(a, d) -> (r)
+//@   pure
+//@ func (*channelBus).Subscribe
+//@   assert before call#1 chansend: closeHeld && !b.isClosed
+//@ func (*channelBus).Unsubscribe
+//@   assert before call#1 chansend: closeHeld && !b.isClosed
+//@ func (*channelBus).Close
+//@   assert before call#1 chansend: closeHeld && b.isClosed
